@@ -2,11 +2,14 @@
 from .enc import Table
 from . import ops_dp
 from . import ops_branch
+from . import ops_ls
 
 TABLE = Table()
 ops_dp.build_arm(TABLE)
 ops_dp.build_thumb(TABLE)
 ops_branch.build(TABLE)
+ops_ls.build_arm(TABLE)
+ops_ls.build_thumb(TABLE)
 
 
 def rows_for(cls_name):
